@@ -56,18 +56,16 @@ def ratingBallotOk (L : Rat) (k : Option Rat) (b : Ballot) : Bool :=
    | some k => decide (rsum (b.scores.map (·.2)) ≤ k)
    | none => true)
 
-/-- `GeneralRating.__init__` argument checks (m as an integer so that `m ≤ 0` is expressible);
-Python's `if k and …` treats `k = 0` like `None`. -/
+/-- `GeneralRating.__init__` argument checks (m as an integer so that `m ≤ 0` is expressible):
+`m > 0`, `L > 0`, and when a budget is given `k > 0` and `L ≤ k` (after repair F-C20 a zero
+budget is rejected like any other non-positive one). -/
 def ratingArgsOk (m : Int) (L : Rat) (k : Option Rat) : Bool :=
   decide (0 < m) && decide (0 < L) &&
   (match k with
-   | some k => k = 0 || (decide (0 < k) && decide (L ≤ k))
+   | some k => decide (0 < k) && decide (L ≤ k)
    | none => true)
 
-def effectiveBudget (k : Option Rat) : Option Rat :=
-  match k with
-  | some k => if k = 0 then none else some k
-  | none => none
+def effectiveBudget (k : Option Rat) : Option Rat := k
 
 def generalRatingRun (p : Profile) (m : Int) (L : Rat) (k : Option Rat) (tb : Option TB)
     (pri : List Cand) : Outcome States :=
@@ -93,7 +91,7 @@ def scoreRuleRun (rule : ScoreRule) (p : Profile) (m : Int) (L : Rat) (k : Optio
   | .cumulative => generalRatingRun p m (m : Rat) (some (m : Rat)) tb pri
   | .approval => generalRatingRun p m 1 none tb pri
   | .bloc =>
-    let kk := match effectiveBudget k with | some k => k | none => (m : Rat)
+    let kk := match k with | some k => k | none => (m : Rat)
     generalRatingRun p m 1 (some kk) tb pri
 
 /-! ### pairwise rules -/
@@ -157,6 +155,20 @@ def alaskaRun (p : Profile) (m1 m2 : Int) (cfg : STVCfg) (ω : STVOracle) (quota
     let ω' : STVOracle := { pri := fun r => ω.pri (r + 1), sample := fun r => ω.sample (r + 1) }
     let res ← stvRun { cfg with m := m2.toNat } p1 ω' quotaOk
     pure (st0 :: st1 :: (res.states.drop 1).map (fun s => { s with round := s.round + 1 }))
+
+/-- `IRV(profile, quota, tiebreak)` = `STV` with one seat and the default transfer / mode -/
+def irvRun (p : Profile) (quota : Quota) (tb : Option TB) (ω : STVOracle) (quotaOk : Bool := true) :
+    Outcome STVResult :=
+  stvRun { m := 1, quota := quota, simultaneous := true, tiebreak := tb, transfer := .fractional } p ω quotaOk
+
+/-- `SNTV(profile, m, tiebreak)` -/
+def sntvRun (p : Profile) (m : Nat) (tb : Option TB) (pri : List Cand) : Outcome States :=
+  pluralityRun p m tb pri
+
+/-- `SequentialRCV(profile, m, quota, simultaneous, tiebreak)`: STV whose transfer passes the
+winner's ballots on at full weight -/
+def seqRCVRun (cfg : STVCfg) (p : Profile) (ω : STVOracle) (quotaOk : Bool := true) : Outcome STVResult :=
+  stvRun { cfg with transfer := .full } p ω quotaOk
 
 /-! ### randomised rules -/
 
